@@ -38,6 +38,7 @@ type Config struct {
 	MemTableSize    int64
 	MaxBatchCount   int64
 	MaxBatchSize    int64
+	QueueCap        int64 // commit queue capacity (0 = engine default 1024)
 	Tweak           func(*NoKV.Options)
 }
 
@@ -131,6 +132,11 @@ func (h *H) install() {
 	verifhook.SetInt64Handler(func(name string) int64 {
 		if name == "lsm.arenaSize" {
 			return 1 << 20 // one 1 MiB chunk instead of 64 MiB: the arena still grows chunk by chunk
+		}
+		if name == "db.commitQueueCap" {
+			if cur := current.Load(); cur != nil {
+				return cur.Cfg.QueueCap
+			}
 		}
 		return 0
 	})
